@@ -22,10 +22,17 @@ func (valenc errorEncoder) Encode(enc *Encoder, v interface{}) {
 
 func (errorEncoder) Write(enc *Encoder, v interface{}) {
 	switch v := v.(type) {
+	case nil:
+		// a nil error, e.g. a struct member of type error: every member takes a value
+		enc.WriteNil()
 	case error:
 		enc.WriteError(v)
 	case *error:
-		enc.WriteError(*v)
+		if v == nil || *v == nil {
+			enc.WriteNil()
+		} else {
+			enc.WriteError(*v)
+		}
 	}
 }
 
